@@ -53,6 +53,17 @@ theorem C19_disconnect_isolated (s : Srv) (i : Nat) :
   · simp [Srv.step, (hs _).2.2.1, Srv.drop]
   · simp [Srv.step, (hs _).2.2.2, Srv.drop]
 
+/-- a client that connects and goes away before or during its handshake (a port probe, garbage, a client killed at
+start-up) is a connection like any other — `connect` is the transport-level connection, the handshake is not part of
+this machine: once it has left, the server holds nothing of it, so `C19_stop_completes` applies to histories with such
+clients unchanged -/
+theorem C19_early_leaver_leaves_nothing (s : Srv) (hs : s.stopRequested = false) (hl : s.listening = true) :
+    (s.step .connect).step (.clientClose s.conns.length) = { s with conns := s.conns ++ [false] }
+    ∧ ({ s with conns := s.conns ++ [false] } : Srv).allGone = s.allGone := by
+  constructor
+  · simp [Srv.step, hl, Srv.drop, Srv.settle, hs]
+  · simp [Srv.allGone, List.all_append]
+
 /-! non-vacuity: two clients, stop while both are connected, one leaves by `exit`, the other by EOF -/
 
 example : (Srv.start true).run [.connect, .connect, .line 0, .stop, .connect, .exitCmd 0]
@@ -62,6 +73,11 @@ example : (Srv.start true).run [.connect, .connect, .line 0, .stop, .connect, .e
 example : (Srv.start true).run [.connect, .connect, .line 0, .stop, .connect, .exitCmd 0, .clientClose 1]
     = { unix := true, listening := false, stopRequested := true, serveDone := true, socketFile := false,
         conns := [false, false], commands := 1 } := by decide +kernel
+
+-- the last client before the stop never completed its handshake (connect, then gone)
+example : (Srv.start true).run [.connect, .clientClose 0, .connect, .clientClose 1, .stop]
+    = { unix := true, listening := false, stopRequested := true, serveDone := true, socketFile := false,
+        conns := [false, false], commands := 0 } := by decide +kernel
 
 example : (Srv.start false).run [.connect, .stop, .line 0]
     = { unix := false, listening := false, stopRequested := true, serveDone := true, socketFile := false,
